@@ -326,7 +326,7 @@ bool TasgridWrapper::checkSanePostRead() const{
 
     if (command == command_refine_surp or (is_refine and (grid.isLocalPolynomial() or grid.isWavelet()))){
         test.fail_if(not set_tolerance, "must specify -tolerance for surplus refinement");
-        test.fail_if(not set_tref, "must specify -reftype option");
+        test.fail_if(not set_tref and (grid.isLocalPolynomial() or grid.isWavelet()), "must specify -reftype option");
 
         test.worry_if(not valsfilename.empty() and (grid.isGlobal() or grid.isSequence() or grid.isFourier()),
                       "the scale factors are not used with Global, Sequence and Fourier grids");
